@@ -14,6 +14,7 @@ type Ctx struct {
 	Tier   string // quick | thorough
 	Replay string // path of a replay file, "" for a normal run
 	Work   string // scratch directory owned by this run
+	What   string // scenario selector
 	Rand   *rand.Rand
 	caseNo int
 }
